@@ -7,7 +7,8 @@ Lib/PyFill.v, which the plain path does not import).  They are therefore *sliced
 tools/sitegen/fill.py picks the statements named by `pick` out of the function's AST, checks
 (fail-closed) that the top-level shape of the function is exactly `shape` (when given; `<picked>` stands
 for a picked statement, `for T in I: <picked>` for a loop whose body is one picked `if`) and that every
-statement text in `requires` is still present at the top level, rewrites assignment targets
+statement text in `requires` is still present at the top level (`requires_nested`: (text, count) at any depth — the
+statements a hand-written model definition transcribes), rewrites assignment targets
 `self.x = e` to `self_x = e`, and hands the result to the unmodified py2v.translate_fragment with the
 `params` / `result` / `extern` below.  Output: coq/Gen/S_fill.v (after the site table).
 
@@ -94,7 +95,16 @@ SLICED = [
          params=["equiv_zero_reduce", "reduce_super_ufunc"],
          extern={"equivalent(zero_reduce_result, self.fill_value)": "Ok equiv_zero_reduce"},
          requires=["zero_reduce_result = method.reduce([self.fill_value, self.fill_value], **kwargs)",
-                   "reduce_super_ufunc = _reduce_super_ufunc.get(method)"]),
+                   "reduce_super_ufunc = _reduce_super_ufunc.get(method)"],
+         # the fill correction transcribed by Model/FillRules.v (sum_group_impl, sum_result_fill)
+         requires_nested=[
+             ("missing_counts = counts != n_cols", 2),
+             ("data[missing_counts] = method(data[missing_counts], self.fill_value, **kwargs)", 1),
+             ("data[missing_counts] = method(data[missing_counts], reduce_super_ufunc(self.fill_value, "
+              "(n_cols - counts)[missing_counts])).astype(data.dtype)", 1),
+             ("result_fill_value = reduce_super_ufunc(self.fill_value, n_cols)", 1),
+             ("result_fill_value = method.reduce(np.empty((0,), dtype=self.dtype), **kwargs)", 1),
+         ]),
     # maybe_densify (COO and GCXS): the size test
     dict(_MAYBE, name="s_maybe_densify_coo", file=CO, func="COO.maybe_densify"),
     dict(_MAYBE, name="s_maybe_densify_gcxs", file=GC, func="GCXS.maybe_densify"),
